@@ -118,7 +118,7 @@ func main() {
 		return
 	}
 	ev.Main("C03", "model_checking", func(c *ev.Ctx) {
-		c.Rule("part 1: K = 16 key fixtures (quick; 28 thorough; incl. P-256 handed over as *x509.AugmentedECDSA — the form and the branch of CheckSignatureFromKey every PARSED certificate/CSR/CRL/OCSP key goes through — (thorough: every curve) and a DSA (2048,224) key for the digest truncation with a q that is neither 160 nor 256 bits) × A = all 17 SignatureAlgorithm constants × M = 6 messages (0,1,55,56,64,1024 bytes); for every (k,a,m) that has a genuine standard-library signature: the genuine tuple, every single-bit flip of the signature, every single-bit flip of the message (≤ 64 bytes: all bytes; 1 KiB: first and last 32 bytes), every other key of K (the same key in its other Go type must verify), one near-miss key (RSA: same modulus, e+2; ECDSA: the point (x, p-y); DSA: same (p,q,g), y*g mod p), every other algorithm of A, one byte removed/added at either end, for ECDSA/DSA 29 (r,s) pairs from {r,0,n,n+r,-r}×{s,0,n,n+s,-s,n-s} + 11 non-DER encodings, for RSA 11–13 private-key signatures over malformed EMSA-PKCS1-v1_5 / EMSA-PSS encodings. Quick-tier reductions of the bit-flip sweeps only (thorough has none): RSA ≥ 2048 bits: signature bits {0,7} of every byte; P-224/P-384/P-521/DSA: all bits on the 64-byte message, bits {0,7} of every byte on the other five; P-521 additionally sweeps only (ECDSA-SHA512 × all messages) and (other hashes × 64-byte message). Verdicts part 1: genuine accepted; every deviation accepted exactly when the standard library accepts it under the SAME (key type, algorithm) — an algorithm of another key family is never accepted; a panic is a violation. part 2: 6 creation APIs (incl. an OCSP response signed by a delegated responder whose certificate is embedded and checked against the issuer) × 18 SignatureAlgorithm values (0..16, 17) × 9 signer keys (quick; 12 thorough); every accepted combination is created, self-verified and judged by the independent decoder; each object is then swept with every substitution from {00,ff,b^01,b^80} (thorough: +{01,7f,80} and all 8 bit flips) at every offset (quick: P-224/P-384/P-521 objects and delegated OCSP responses are swept for the default algorithm only); an accepted substitution must leave a signature that the independent decoder + standard library still verify under the algorithm the object was made with; a panic is a violation; a signer kind the APIs document as unsupported (DSA) being accepted is a violation. A case is non-trivial when it reaches cryptographic verification (accepted, or rejected with a verification error rather than a decoding error)")
+		c.Rule("part 1: K = 19 key fixtures (quick; 31 thorough; incl. three RSA keys found by a deterministic prime search whose moduli have exactly 1025, 1026 and 1031 bits (8k+1: the PSS encoded message is one octet shorter than the modulus; 8k+2 / 8k+7: 7 / 2 masked leftmost bits), P-256 handed over as *x509.AugmentedECDSA — the form and the branch of CheckSignatureFromKey every PARSED certificate/CSR/CRL/OCSP key goes through — (thorough: every curve) and a DSA (2048,224) key for the digest truncation with a q that is neither 160 nor 256 bits) × A = all 17 SignatureAlgorithm constants × M = 6 messages (0,1,55,56,64,1024 bytes); for every (k,a,m) that has a genuine standard-library signature: the genuine tuple, every single-bit flip of the signature, every single-bit flip of the message (≤ 64 bytes: all bytes; 1 KiB: first and last 32 bytes), every other key of K (the same key in its other Go type must verify), one near-miss key (RSA: same modulus, e+2; ECDSA: the point (x, p-y); DSA: same (p,q,g), y*g mod p), every other algorithm of A, one byte removed/added at either end, for ECDSA/DSA 29 (r,s) pairs from {r,0,n,n+r,-r}×{s,0,n,n+s,-s,n-s} + 11 non-DER encodings, for RSA 11–13 private-key signatures over malformed EMSA-PKCS1-v1_5 / EMSA-PSS encodings, plus for every RSA key: s+n in place of s (when it has k octets); PKCS#1 v1.5: first octet of EM ∈ {01,02,80,ff} (when below n); PSS: a correct harness-made EM (must verify) and, built from a CORRECT EM under the first of 256 fixed salts that keeps the representative below n, the representatives {01,02,7f,80,ff}||EM (moduli of 8k+1 bits; shapes that cannot be below n are skipped) and EM with each single one and with all of its 8emLen-emBits leftmost bits set — each turned into a signature with the private key; every genuine and every structured RSA-PSS tuple is also handed to rsa.VerifyPSS directly with SaltLength EqualsHash and Auto, verdict = crypto/rsa.VerifyPSS with the same options. Quick-tier reductions of the bit-flip sweeps only (thorough has none): RSA ≥ 2048 bits: signature bits {0,7} of every byte; P-224/P-384/P-521/DSA: all bits on the 64-byte message, bits {0,7} of every byte on the other five; P-521 additionally sweeps only (ECDSA-SHA512 × all messages) and (other hashes × 64-byte message). Verdicts part 1: genuine accepted; every deviation accepted exactly when the standard library accepts it under the SAME (key type, algorithm) — an algorithm of another key family is never accepted; a panic is a violation. part 2: 6 creation APIs (incl. an OCSP response signed by a delegated responder whose certificate is embedded and checked against the issuer) × 18 SignatureAlgorithm values (0..16, 17) × 9 signer keys (quick; 12 thorough); every accepted combination is created, self-verified and judged by the independent decoder; each object is then swept with every substitution from {00,ff,b^01,b^80} (thorough: +{01,7f,80} and all 8 bit flips) at every offset (quick: P-224/P-384/P-521 objects and delegated OCSP responses are swept for the default algorithm only); an accepted substitution must leave a signature that the independent decoder + standard library still verify under the algorithm the object was made with; a panic is a violation; a signer kind the APIs document as unsupported (DSA) being accepted is a violation. A case is non-trivial when it reaches cryptographic verification (accepted, or rejected with a verification error rather than a decoding error)")
 		c.Assume("the Go standard library (crypto/rsa, crypto/ecdsa, crypto/ed25519, crypto/dsa, encoding/asn1) is the reference for 'valid signature'",
 			"RSA with exponents ≥ 2^31 and signatures over malformed encodings use a math/big transcription of RFC 8017, cross-checked against crypto/rsa on every standard key and algorithm",
 			"DSA: the digest is truncated to the byte length of q before crypto/dsa (FIPS 186-4 §4.6)",
